@@ -1,37 +1,66 @@
-"""Reach counters: how often each pydiffx function was entered (PY_START via
-sys.monitoring, foreign code DISABLEd so the overhead stays at a few %)."""
+"""Reach counters and line coverage of the code under test.
+
+* PY_START (sys.monitoring): how often each pydiffx function was entered;
+  foreign code is DISABLEd so the overhead stays at a few %.
+* LINE: which statement lines of each pydiffx function were executed at least
+  once. Every location is DISABLEd after its first hit, so the cost is one
+  callback per distinct line per process.
+
+Both are evidence of what the workload actually drove ("the monitors saw"),
+never a verdict.
+"""
 import os
 import sys
 
 from mon import env
 
 _counts = {}
+_codes = {}          # key -> code object
+_lines = {}          # key -> set of executed line numbers
 _on = False
 _TOOL = None
+_root = None
+
+
+def _key(code):
+    fn = code.co_filename
+    return '%s:%s' % (fn[len(_root):], code.co_qualname)
 
 
 def start():
-    global _on, _TOOL
+    global _on, _TOOL, _root
     mon = getattr(sys, 'monitoring', None)
     if mon is None or _on:
         return
-    root = os.path.realpath(os.path.join(env.REPO, 'python', 'pydiffx')) + os.sep
+    _root = os.path.realpath(os.path.join(env.REPO, 'python',
+                                          'pydiffx')) + os.sep
     _TOOL = mon.PROFILER_ID
     try:
         mon.use_tool_id(_TOOL, 'verif-reach')
     except ValueError:
         return
 
-    def on_start(code, offset):
+    def mine(code):
         fn = code.co_filename
-        if fn.startswith(root) and os.sep + 'tests' + os.sep not in fn:
-            key = '%s:%s' % (fn[len(root):], code.co_qualname)
-            _counts[key] = _counts.get(key, 0) + 1
+        return fn.startswith(_root) and os.sep + 'tests' + os.sep not in fn
+
+    def on_start(code, offset):
+        if mine(code):
+            k = _key(code)
+            _counts[k] = _counts.get(k, 0) + 1
+            if k not in _codes:
+                _codes[k] = code
             return None
         return mon.DISABLE
 
+    def on_line(code, line):
+        if mine(code):
+            _lines.setdefault(_key(code), set()).add(line)
+        return mon.DISABLE
+
     mon.register_callback(_TOOL, mon.events.PY_START, on_start)
-    mon.set_events(_TOOL, mon.events.PY_START)
+    mon.register_callback(_TOOL, mon.events.LINE, on_line)
+    mon.set_events(_TOOL, mon.events.PY_START | mon.events.LINE)
     _on = True
 
 
@@ -42,9 +71,32 @@ def stop():
         return
     mon.set_events(_TOOL, 0)
     mon.register_callback(_TOOL, mon.events.PY_START, None)
+    mon.register_callback(_TOOL, mon.events.LINE, None)
     mon.free_tool_id(_TOOL)
     _on = False
 
 
 def counts():
     return dict(_counts)
+
+
+def line_coverage():
+    """{function key: {'first': first line, 'all': [relative lines],
+    'hit': [relative lines]}} with line numbers relative to the function's
+    first line (so the report survives edits elsewhere in the file)."""
+    out = {}
+    for k, code in _codes.items():
+        if code.co_qualname.endswith('<lambda>') or \
+                '<genexpr>' in code.co_qualname or \
+                '<listcomp>' in code.co_qualname or \
+                '<dictcomp>' in code.co_qualname:
+            continue
+        first = code.co_firstlineno
+        allv = sorted(set(l for _, _, l in code.co_lines()
+                          if l is not None and l > first))
+        if not allv:
+            continue
+        hit = sorted(l for l in _lines.get(k, ()) if l > first)
+        out[k] = {'all': [l - first for l in allv],
+                  'hit': [l - first for l in hit if l in set(allv)]}
+    return out
